@@ -6,6 +6,10 @@ ALL = ["C%02d" % i for i in range(1, 21)]
 
 # id -> (engine, level, technique, text, note, design_ref)
 CHECKS = {
+ "C17": ("mc-seq", "model_checking",
+   "exhaustive enumeration of transfer shapes x single faults x interleavings x configurations through the real file-transfer plugin API, file-system sandbox scan as oracle",
+   "Every content length 1..9 x package size x single fault (drop / duplicate at every later position / swap / grow / shrink a package, drop FLST, drop FLFI) x 10 configs x both byte orders, with unrelated and near-miss messages at every position; 1-3 concurrent transfers differing in exactly one of serial / ECU / lifecycle under every interleaving; 12 announced file names x globs x pre-existing entries (file, directory, dangling symlink, symlink to file) x directory states; hostile FLST size announcements (>= 64 MiB products in a child process). Oracle: complete iff all packages in order (duplicates tolerated), saved and auto-saved bytes equal the original, nothing damaged saved as complete, sandbox scan shows no write outside the configured directory and no overwritten entry.",
+   "Trusted: harness verbose-payload encoder and sandbox scanner. Not covered: multiple faults per transfer, a repeated package number with different bytes, file-system races.", "4 C17"),
  "C14": ("mc-cli", "exploration",
    "full product of convert option combinations x input-file permutations against the freshly built adlt binary, reference selection computed in the harness",
    "Every combination of -b/-e/--lcs/--eac/-f (DLF and dlt-convert format)/--sort/output style/-o and every order of three generated input files (plus a duplicated file argument) is run through the adlt binary built from the working tree; printed indices, their order, the shown text and the re-read -o file must equal the selection the harness derives from the option meanings on the generated messages (merged order, lifecycle ids, independent --eac evaluation).",
